@@ -3,6 +3,8 @@ package colsim
 import (
 	"fmt"
 	"math"
+
+	"github.com/zeebo/xxh3"
 )
 
 // seqProfile steers the single-client history generator for one property.
@@ -45,6 +47,7 @@ type avoid struct {
 	blockGrowth         bool
 	enumBesideReaders   bool
 	indexDuringApply    bool
+	enumCollision       bool
 	rollbackInsert      bool
 	sortDupKeys         bool
 	rekey               bool
@@ -72,6 +75,7 @@ func (a avoid) list() (out []string) {
 	add(a.blockGrowth, "growth-beside-readers")
 	add(a.enumBesideReaders, "enum-write-beside-readers")
 	add(a.indexDuringApply, "index-build-during-apply")
+	add(a.enumCollision, "enum-hash-collision")
 	add(a.rollbackInsert, "rollback-insert")
 	return
 }
@@ -96,6 +100,24 @@ func (g *gen) name(prefix string) string {
 }
 
 var enumAlphabet = []string{"", "a", "b", "red", "green", "blue", "a-longer-enum-value", "\x00", "é"}
+
+// enumCollision is a pair of distinct strings whose 32-bit truncated xxh3 hashes are
+// equal (found by a birthday search at start-up, ~10^5 hashes): the enum column interns
+// values by that hash, so the two read back as each other (known finding, C01).
+var enumCollision = findEnumCollision()
+
+func findEnumCollision() [2]string {
+	seen := make(map[uint32]string, 1<<17)
+	for i := 0; ; i++ {
+		s := fmt.Sprintf("enum-%d", i)
+		h := uint32(xxh3.HashString(s))
+		if prev, ok := seen[h]; ok {
+			return [2]string{prev, s}
+		}
+		seen[h] = s
+	}
+}
+
 var smallAlphabet = []string{"a", "b", "c", "d", "e"}
 
 // genVal draws a value for a column kind from a boundary pool or at random.
@@ -107,6 +129,9 @@ func (g *gen) genVal(c ColSpec) Val {
 	case KEnum:
 		if g.p.smallStrings {
 			return strVal(smallAlphabet[r.Intn(len(smallAlphabet))])
+		}
+		if !g.av.enumCollision && r.Chance(0.3) {
+			return strVal(enumCollision[r.Intn(2)]) // known finding: colliding enum strings
 		}
 		return strVal(enumAlphabet[r.Intn(len(enumAlphabet))])
 	case KKey:
